@@ -2,7 +2,8 @@ import RawPanelVerif.Lemmas.GfxStream
 import RawPanelVerif.Model.GfxReading
 /-!
 C05: the model's reading of a line as a Spec-level chunk (`readLine`), and how the values the decoder computes
-(`Parsed`) relate to it (`Rel`) when every number has at most 9 digits.
+(`Parsed`) relate to it (`Rel`) when every number fits its field (`Chunk.small`: ids, dimensions, offsets below 2^32,
+chunk indices below 2^63).
 
 `readLine` is what the safety theorems use for "the chunk a line denotes". The Spec's own, independently written
 line grammar (`Spec.Gfx.parseLine`) is compared with it by the driver on every line of every record (and with the
@@ -31,29 +32,56 @@ theorem natOfDigits_lt_aux (ds : Bytes) (h : ds.all isDigit = true) : ∀ acc,
       _ ≤ ((acc + 1) * 10) * 10 ^ ds.length := Nat.mul_le_mul_right _ (by omega)
       _ = (acc + 1) * 10 ^ (ds.length + 1) := by rw [Nat.mul_assoc, Nat.pow_succ, Nat.mul_comm 10]
 
-theorem atoiNat_lt (ds : Bytes) (h : shortB ds = true) : atoiNat ds < 10 ^ 9 := by
+theorem atoiNat_le (ds : Bytes) : atoiNat ds ≤ natOfDigits ds := by
   unfold atoiNat
   split
-  · decide
-  · rename_i hc
-    have hall : ds.all isDigit = true := by
-      simp only [not_or, Bool.not_eq_true', Bool.not_eq_false] at hc; simpa using hc.2
-    have := natOfDigits_lt_aux ds hall 0
-    simp only [shortB, decide_eq_true_eq] at h
-    have hp : 10 ^ ds.length ≤ 10 ^ 9 := Nat.pow_le_pow_right (by decide) h
-    unfold natOfDigits; omega
+  · exact Nat.zero_le _
+  · exact Nat.le_refl _
 
-theorem atoi_eq_atoiNat (ds : Bytes) (h : shortB ds = true) : atoi ds = atoiNat ds := by
-  have := atoiNat_lt ds h
-  unfold atoi atoiNat at *
+/-- below 2^63 `strconv.Atoi` does not clamp -/
+theorem atoi_eq_atoiNat (ds : Bytes) (h : intB ds = true) : atoi ds = atoiNat ds := by
+  simp only [intB, decide_eq_true_eq] at h
+  unfold atoi atoiNat
   split
   · rfl
-  · rename_i hc; simp only [hc, if_false] at this
-    exact Nat.min_eq_left (by unfold maxInt; omega)
+  · exact Nat.min_eq_left (by unfold maxInt; omega)
 
-theorem atou32_eq_atoiNat (ds : Bytes) (h : shortB ds = true) : atou32 ds = atoiNat ds := by
-  unfold atou32; rw [atoi_eq_atoiNat ds h]
-  exact Nat.mod_eq_of_lt (by have := atoiNat_lt ds h; omega)
+/-- below 2^32 the conversion `uint32(su.Intval(s))` keeps the value -/
+theorem atou32_eq_atoiNat (ds : Bytes) (h : u32B ds = true) : atou32 ds = atoiNat ds := by
+  simp only [u32B, decide_eq_true_eq] at h
+  unfold atou32
+  rw [atoi_eq_atoiNat ds (by simp only [intB, decide_eq_true_eq]; omega)]
+  exact Nat.mod_eq_of_lt (by have := atoiNat_le ds; omega)
+
+/-! #### beyond the domain: what the code does with larger numbers -/
+
+/-- from 2^63 on `strconv.Atoi` returns `MaxInt64` (with a range error that `su.Intval` drops) -/
+theorem atoi_clamps (ds : Bytes) (hne : ds ≠ []) (hd : ds.all isDigit = true) (h : 2 ^ 63 ≤ natOfDigits ds) :
+    atoi ds = maxInt := by
+  unfold atoi
+  have : ¬ (ds.isEmpty = true ∨ (!ds.all isDigit) = true) := by
+    cases ds with
+    | nil => exact absurd rfl hne
+    | cons _ _ => simp [hd]
+  rw [if_neg this]
+  exact Nat.min_eq_right (by unfold maxInt; omega)
+
+/-- a number in `2^32 .. 2^63-1` is stored in a `uint32` field modulo 2^32 -/
+theorem atou32_wraps (ds : Bytes) (hne : ds ≠ []) (hd : ds.all isDigit = true) (h : natOfDigits ds < 2 ^ 63) :
+    atou32 ds = natOfDigits ds % 2 ^ 32 := by
+  unfold atou32 atoi
+  have : ¬ (ds.isEmpty = true ∨ (!ds.all isDigit) = true) := by
+    cases ds with
+    | nil => exact absurd rfl hne
+    | cons _ _ => simp [hd]
+  rw [if_neg this, Nat.min_eq_left (by unfold maxInt; omega)]
+
+/-- … and from 2^63 on as `MaxInt64 mod 2^32 = 2^32 - 1` -/
+theorem atou32_clamped (ds : Bytes) (hne : ds ≠ []) (hd : ds.all isDigit = true) (h : 2 ^ 63 ≤ natOfDigits ds) :
+    atou32 ds = 2 ^ 32 - 1 := by
+  unfold atou32
+  rw [atoi_clamps ds hne hd h]
+  decide
 
 theorem atoiNat_nil : atoiNat [] = 0 := by decide
 
@@ -159,7 +187,7 @@ theorem parts_digits (s : Bytes) (h : s.all isIdChar = true) : ∀ part ∈ spli
           exact ih h.2 p (by rw [heq]; simp)
         · exact ih h.2 part (by rw [heq]; simp [hp])
 
-theorem atou32_part (part : Bytes) (hd : part.all isDigit = true) (hs : shortB part = true) :
+theorem atou32_part (part : Bytes) (hd : part.all isDigit = true) (hs : u32B part = true) :
     atou32 part = Spec.Gfx.value part := by
   rw [atou32_eq_atoiNat part hs, value_eq]
   unfold atoiNat
@@ -167,7 +195,7 @@ theorem atou32_part (part : Bytes) (hd : part.all isDigit = true) (hs : shortB p
   | nil => rfl
   | cons c cs => simp [hd]
 
-theorem intExplode_eq (s : Bytes) (h : s.all isIdChar = true) (hs : (splitComma s).all shortB = true) :
+theorem intExplode_eq (s : Bytes) (h : s.all isIdChar = true) (hs : (splitComma s).all u32B = true) :
     intExplode s = Spec.Gfx.idsOf s := by
   unfold intExplode Spec.Gfx.idsOf
   rw [splitOn_eq]
